@@ -35,14 +35,22 @@ MonInit(versions) ==
    view    |-> [p \in Peers |-> SpecInit],
    broken  |-> [p \in Peers |-> {}],
    versions |-> versions,          \* versions offered by the initiator's Propose
+   fcredit |-> [p \in Peers |-> 0], \* FetchEb / FetchEbTxs commands for p not yet turned into a leios-fetch request
+   bcredit |-> 0,                  \* RequestBlocks commands not yet turned into a RequestRange
    tainted |-> FALSE]
 
 MK(m) == <<m.proto, m.kind>>
 
 \* finding key: protocol / message kind / emitting hook - responder view at the time; "-before-sent" marks the
-\* case that an earlier message of the same protocol is still unconfirmed (the initiator's own state lags)
-FindingKey(pr, kind, visitor, st, lag) ==
+\* case that an earlier message of the same protocol is still unconfirmed (the initiator's own state lags);
+\* "-reemitted" that more block-fetch / leios-fetch requests were emitted than the application ever commanded
+\* (the same request went out again).  The qualifiers only make keys specific, they never decide a violation.
+FindingKey(pr, kind, visitor, st, lag, re) ==
   pr \o "/" \o kind \o "/" \o visitor \o "-in-" \o st \o (IF lag THEN "-before-sent" ELSE "")
+     \o (IF re THEN "-reemitted" ELSE "")
+
+IsFetchRequest(m) == m.proto = "leiosfetch" /\ m.kind \in {"BlockRequest", "BlockTxsRequest"}
+IsRangeRequest(m) == m.proto = "blockfetch" /\ m.kind = "RequestRange"
 
 \* which hook of the behaviour emitted (third component of the finding key)
 Visitor(evk) == CASE evk = "hk" -> "housekeeping"
@@ -80,12 +88,22 @@ EnvEffect(M, e) ==
          ELSE [M EXCEPT !.outst[e.p] = IF @ > 0 THEN @ - 1 ELSE 0]
     [] e.ev = "sent" -> [M EXCEPT !.unconf[e.p] = RemoveFirst(@, MK(e.m))]
     [] e.ev = "recv" -> [M EXCEPT !.view[e.p][e.m.proto] = SpecNext(e.m.proto, @, e.m.kind)]
+    [] e.ev \in {"fetcheb", "fetchebtxs"} /\ e.p \in Peers -> [M EXCEPT !.fcredit[e.p] = @ + 1]
+    [] e.ev = "reqblocks" -> [M EXCEPT !.bcredit = @ + 1]
     [] OTHER -> M
 
 -----------------------------------------------------------------------------
 (* emissions of one step, in order; returns [M |-> monitor, nb |-> new violation classes] *)
+\* bookkeeping of commanded vs emitted requests (independent of the connection state)
+Spend(M, o) ==
+  IF o.t = "send" /\ o.p \in Peers /\ IsFetchRequest(o.m) THEN [M EXCEPT !.fcredit[o.p] = IF @ > 0 THEN @ - 1 ELSE 0]
+  ELSE IF o.t = "send" /\ IsRangeRequest(o.m) THEN [M EXCEPT !.bcredit = IF @ > 0 THEN @ - 1 ELSE 0]
+  ELSE M
+Uncommanded(M, o) == \/ o.p \in Peers /\ IsFetchRequest(o.m) /\ M.fcredit[o.p] = 0
+                     \/ IsRangeRequest(o.m) /\ M.bcredit = 0
+
 EmitOne(R, evk, o) ==
-  LET M == R.M IN
+  LET M == Spend(R.M, o) IN
   IF o.t = "connect" /\ o.p \in Peers THEN [R EXCEPT !.M.outst[o.p] = @ + 1]
   ELSE IF o.t = "send" /\ o.p \in Peers /\ M.live[o.p] THEN
     LET pr == o.m.proto
@@ -96,8 +114,9 @@ EmitOne(R, evk, o) ==
             THEN [R EXCEPT !.M = [M1 EXCEPT !.view[o.p][pr] = SpecNext(pr, st, o.m.kind)]]
             ELSE [M  |-> [M1 EXCEPT !.broken[o.p] = @ \cup {pr}],
                   nb |-> R.nb \cup {FindingKey(pr, o.m.kind, Visitor(evk), st,
-                                                \E i \in DOMAIN M.unconf[o.p] : M.unconf[o.p][i][1] = pr)}]
-  ELSE R
+                                                \E i \in DOMAIN M.unconf[o.p] : M.unconf[o.p][i][1] = pr,
+                                                Uncommanded(R.M, o))}]
+  ELSE [R EXCEPT !.M = M]
 
 RECURSIVE EmitAll(_, _, _, _)
 EmitAll(R, evk, out, i) == IF i > Len(out) THEN R ELSE EmitAll(EmitOne(R, evk, out[i]), evk, out, i + 1)
